@@ -16,6 +16,9 @@ trait Cfg<T: Tier>: 'static {
     const DIM: usize;
     const DECOMPOSED: bool;
     fn gens(float: bool) -> Vec<Self::Tr>;
+    /// float tiers: an element that differs from one() by about `d` in every free component - what an approximate
+    /// "is this the identity?" test ignores
+    fn near_one(d: f64) -> Self::Tr;
     fn comps(t: &Self::Tr) -> Vec<T>;
     fn h(t: &Self::Tr) -> H<T::M>;
     /// how far the rotation part is from a unit rotation (float tiers), 0 for matrices
@@ -94,6 +97,10 @@ impl<T: Tier> Cfg<T> for DQ {
         let (qs, ss, ds) = (rot_gens_q::<T>(), scales::<T>(float), disps::<T>());
         (0..ss.len().max(qs.len())).map(|i| Decomposed { scale: ss[i % ss.len()], rot: mk_q(qs[i % qs.len()]), disp: mk_v3(ds[i % ds.len()]) }).collect()
     }
+    fn near_one(d: f64) -> Self::Tr {
+        let c = |x: f64| num_traits::cast::<f64, T>(x).unwrap();
+        Decomposed { scale: c(1.0 + 1.5 * d), rot: mk_q([T::one(), c(0.5 * d), c(-0.25 * d), c(d)]), disp: mk_v3([c(2.0 * d), c(-d), c(3.0 * d)]) }
+    }
     fn comps(t: &Self::Tr) -> Vec<T> {
         let mut v = vec![t.scale];
         v.extend(qa(t.rot));
@@ -152,6 +159,10 @@ impl<T: Tier> Cfg<T> for DB3 {
     fn gens(float: bool) -> Vec<Self::Tr> {
         let (qs, ss, ds) = (rot_gens_q::<T>(), scales::<T>(float), disps::<T>());
         (0..ss.len().max(qs.len())).map(|i| Decomposed { scale: ss[i % ss.len()], rot: Basis3::from(mk_q(qs[i % qs.len()])), disp: mk_v3(ds[i % ds.len()]) }).collect()
+    }
+    fn near_one(d: f64) -> Self::Tr {
+        let c = |x: f64| num_traits::cast::<f64, T>(x).unwrap();
+        Decomposed { scale: c(1.0 + 1.5 * d), rot: Basis3::from(mk_q([T::one(), c(0.5 * d), c(-0.25 * d), c(d)])), disp: mk_v3([c(2.0 * d), c(-d), c(3.0 * d)]) }
     }
     fn comps(t: &Self::Tr) -> Vec<T> {
         let mut v = vec![t.scale];
@@ -218,6 +229,10 @@ impl<T: Tier> Cfg<T> for DB2 {
         (0..ss.len().max(angles.len()))
             .map(|i| Decomposed { scale: ss[i % ss.len()], rot: <Basis2<T> as Rotation2>::from_angle(Rad(angles[i % angles.len()])), disp: mk_v2([ds[i % ds.len()][0], ds[i % ds.len()][1]]) })
             .collect()
+    }
+    fn near_one(d: f64) -> Self::Tr {
+        let c = |x: f64| num_traits::cast::<f64, T>(x).unwrap();
+        Decomposed { scale: c(1.0 + 1.5 * d), rot: <Basis2<T> as Rotation2>::from_angle(Rad(c(d))), disp: mk_v2([c(2.0 * d), c(-d)]) }
     }
     fn comps(t: &Self::Tr) -> Vec<T> {
         let mut v = vec![t.scale];
@@ -334,6 +349,12 @@ impl<T: Tier> Cfg<T> for M4C {
         }
         g
     }
+    fn near_one(d: f64) -> Self::Tr {
+        let c = |x: f64| num_traits::cast::<f64, T>(x).unwrap();
+        // affine: the bottom row stays 0 0 0 1
+        let g: [[T; 4]; 4] = mat_from_r(&alphabet::generic(16, 2));
+        mk_m4(std::array::from_fn(|cc| std::array::from_fn(|r| (if cc == r { T::one() } else { T::zero() }) + if r == 3 { T::zero() } else { c(d * g[cc][r].f() / 8.0) })))
+    }
     fn comps(t: &Self::Tr) -> Vec<T> {
         flat_m(m4(*t))
     }
@@ -393,6 +414,11 @@ impl<T: Tier> Cfg<T> for M3P3 {
             g.push(Matrix3::from_diagonal(mk_v3([T::int(2), T::int(0), T::q(-1, 2)])));
         }
         g
+    }
+    fn near_one(d: f64) -> Self::Tr {
+        let c = |x: f64| num_traits::cast::<f64, T>(x).unwrap();
+        let g: [[T; 3]; 3] = mat_from_r(&alphabet::generic(9, 2));
+        mk_m3(std::array::from_fn(|cc| std::array::from_fn(|r| (if cc == r { T::one() } else { T::zero() }) + c(d * g[cc][r].f() / 8.0))))
     }
     fn comps(t: &Self::Tr) -> Vec<T> {
         flat_m(m3(*t))
@@ -458,6 +484,12 @@ impl<T: Tier> Cfg<T> for M3P2 {
         }
         g
     }
+    fn near_one(d: f64) -> Self::Tr {
+        let c = |x: f64| num_traits::cast::<f64, T>(x).unwrap();
+        // affine in 2-D: the bottom row stays 0 0 1
+        let g: [[T; 3]; 3] = mat_from_r(&alphabet::generic(9, 2));
+        mk_m3(std::array::from_fn(|cc| std::array::from_fn(|r| (if cc == r { T::one() } else { T::zero() }) + if r == 2 { T::zero() } else { c(d * g[cc][r].f() / 8.0) })))
+    }
     fn comps(t: &Self::Tr) -> Vec<T> {
         flat_m(m3(*t))
     }
@@ -508,7 +540,9 @@ fn apply_h_opt<F: Field>(h: H<F>, p: [F; 3], w: F) -> Option<[F; 3]> {
 /// rounding noise of its own evaluation, otherwise the point is numerically at infinity
 fn apply_h_u<F: Field>(h: H<F>, p: [F; 3], w: F, u: f64) -> Option<[F; 3]> {
     let r = model::mvec(h, [p[0], p[1], p[2], w]);
-    if w.is_zero() || r[3] == F::one() {
+    // (a weight that is 1 by construction, not one that merely evaluates to 1: a bottom row that cancels to 0 0 0 1
+    // carries the rounding of that cancellation, and the divide by it carries it on)
+    if w.is_zero() || (r[3] == F::one() && r[3].err() == 0.0) {
         return Some([r[0], r[1], r[2]]);
     }
     let scale = r.iter().fold(0.0f64, |a, x| a.max(x.approx().abs()));
@@ -679,20 +713,28 @@ fn invariant<T: Tier, C: Cfg<T>>(ctx: &mut Ctx, s: &C::Tr, gens: &[C::Tr]) {
 
 fn system<T: Tier, C: Cfg<T>>(rep: &mut Report) {
     let depth = rep.pick(3, 4);
+    system_from::<T, C>(rep, false, depth);
+    if !T::EXACT {
+        system_from::<T, C>(rep, true, 1);
+    }
+}
+/// `near`: start from elements next to one() instead of from the generators (float tiers): every action then has a
+/// nearly-identity operand on one side and a generator on the other, and the invariant inverts the nearly-identity ones
+fn system_from<T: Tier, C: Cfg<T>>(rep: &mut Report, near: bool, depth: usize) {
     let gens = C::gens(!T::EXACT);
     let ng = gens.len();
     let mk = |t: C::Tr| Keyed { key: keys(&C::comps(&t)), val: t };
-    let inits: Vec<Keyed<C::Tr>> = gens.iter().map(|g| mk(*g)).collect();
+    let inits: Vec<Keyed<C::Tr>> = if near { [T::U / 64.0, 2f64.powi(-30), 2f64.powi(-22), -(2f64.powi(-26))].iter().map(|d| mk(C::near_one(*d))).collect() } else { gens.iter().map(|g| mk(*g)).collect() };
     let g2 = gens.clone();
     let nact = 4 * ng + 1;
     rep.bfs(
-        C::NAME,
+        &if near { format!("{}/nearly-one", C::NAME) } else { C::NAME.to_string() },
         T::NAME,
-        &format!("{ng} generators; actions concat(s,g), concat(g,s), s*g, concat_self(s,g) for every generator, inverse_transform; depth {depth}"),
+        &if near { format!("4 elements within u/64 ... 2^-22 of one() x the same actions against the {ng} generators; depth {depth}") } else { format!("{ng} generators; actions concat(s,g), concat(g,s), s*g, concat_self(s,g) for every generator, inverse_transform; depth {depth}") },
         inits,
         nact,
         depth,
-        Guard::states(30).need("invertible", 10).need("degenerate", 1).inconclusive(0.05),
+        if near { Guard::states(20).need("invertible", 4) } else { Guard::states(30).need("invertible", 10).need("degenerate", 1).inconclusive(0.05) },
         move |st, act, ctx| {
             let s = &st.val;
             let hs = C::h(s);
